@@ -1067,6 +1067,19 @@ var c19Fixed = []c19Case{
 	{style: 1, proj: 2, mllama: true, limit: 2048, msgs: []c19Msg{{role: "u", content: "m0q one", imgs: []c19Img{{1000, true}}}, {role: "a", content: "m1q two"}, {role: "u", content: "m2q three", imgs: []c19Img{{1001, true}}}}},
 	{style: 1, proj: 2, mllama: true, limit: 2048, msgs: []c19Msg{{role: "u", content: "m0q one", imgs: []c19Img{{1000, true}, {1001, true}}}}},
 	{style: 1, proj: 2, mllama: true, limit: 1, msgs: []c19Msg{{role: "u", content: "m0q one two three four", imgs: []c19Img{{1000, true}, {1001, true}}}, {role: "a", content: "m1q a b c d e f"}, {role: "u", content: "m2q x"}}},
+	// round 7: one directed case per rare model branch, so that the coverage requirement of the check
+	// (REQUIRED_BRANCHES) never depends on the seed
+	{style: 1, proj: 2, mllama: true, limit: 2048, msgs: []c19Msg{{role: "u", content: "m0q one", imgs: []c19Img{{7, false}}}}},                                                            // mllama.Preprocess fails
+	{style: 1, limit: 2048, msgs: []c19Msg{{role: "a", content: "m0q x"}, {role: "t", content: "m1q tool"}, {role: "a", content: "m2q y"}, {role: "u", content: "m3q z"}}},             // join into an occupied response slot, then a flush
+	{style: 1, limit: 2048, msgs: []c19Msg{{role: "s", content: "m0q a"}, {role: "u", content: ""}, {role: "s", content: "m2q b"}, {role: "u", content: "m3q hi"}}},                      // join into an occupied system slot
+	{style: 1, limit: 2048, msgs: []c19Msg{{role: "u", content: "m0q a"}, {role: "t", content: "m1q x"}, {role: "u", content: "m2q b"}}},                                                // join into an occupied prompt slot
+	{style: 1, limit: 2048, msgs: []c19Msg{{role: "u", content: "m0q a"}, {role: "s", content: "m1q late"}, {role: "u", content: "m2q b"}, {role: "a", content: "m3q c"}, {role: "s", content: "m4q t"}}}, // a system message closes an unanswered turn (seeded K)
+	{style: 3, limit: 2048, tokFail: 1, msgs: []c19Msg{{role: "u", content: "m0q a"}, {role: "a", content: "m1q b"}, {role: "u", content: "m2q c"}}},                                 // tokenizer error while measuring
+	{style: c19StyleGenerated, src: `{{ range .Messages }}{{ .Content }}{{ .Nope }}{{ end }}`, limit: 2048, msgs: []c19Msg{{role: "u", content: "m0q a"}, {role: "a", content: "m1q b"}}}, // Execute error while measuring
+	{style: 1, limit: 10},                                                                                                                                                          // empty conversation
+	{style: 1, proj: 0, limit: 2048, msgs: []c19Msg{{role: "u", content: "m0q a", imgs: []c19Img{{1, true}}}, {role: "u", content: "m1q b"}, {role: "a", content: "m2q c"}}}, // nil projector list: images not charged; adjacent users merged
+	{style: 1, proj: 1, mllama: true, limit: 2048, msgs: []c19Msg{{role: "u", content: "m0q a", imgs: []c19Img{{1, true}}}}},                                                 // mllama without projector: raw image data
+	{style: 0, proj: 2, limit: 2000, msgs: []c19Msg{{role: "u", content: "m0q old", imgs: []c19Img{{1, true}}}, {role: "s", content: "m1q mid"}, {role: "u", content: "m2q [img] and [img] [img]", imgs: []c19Img{{2, true}}}, {role: "a", content: "[img] m3q"}}}, // system message at the cut; more placeholders than images; placeholder without image
 }
 
 // emitPair records what chatPrompt hands to the runner (prompt + image ids) for the runner-side
@@ -1154,6 +1167,7 @@ func (e *c19Env) runCase(out *zzverif.Out, c *c19Case) {
 		}
 		e.emitPair(c, &r)
 	}
+	e.branches(out, c, costs, &r)
 	e.l2(out, c, costs, &r, line)
 }
 
@@ -1270,4 +1284,6 @@ func TestVerifC19Trees(t *testing.T) {
 		}
 		fmt.Fprintf(f, "%s := %s\n", name, c19LeanList(tm.Tree.Root))
 	}
+	// Tie-1 constants obtained by executing the real code on probe inputs (zz_verif_c19cov_test.go)
+	c19WriteConsts(t, c19NewEnv(t))
 }
